@@ -129,7 +129,7 @@ func runC16(r *vk.Run) {
 		"non-trivial = distinct (instant, spelling, flag subset) cases.")
 	r.Assume("no wall clock: now is a parameter", "an explicit step must be > 0 and finite; plain seconds may be fractional")
 
-	r.Phase("resolve", r.N(20000, 400000), func(c *vk.Case) {
+	r.Phase("resolve", r.N(20000, 4000000), func(c *vk.Case) {
 		rng := c.Rng
 		now := genInstant(rng)
 		mask := c.Idx % 16
@@ -248,7 +248,7 @@ func runC16(r *vk.Run) {
 	})
 
 	// all spellings of the same instant agree; all 1000 ms fractions at several magnitudes
-	r.Phase("spellings", r.N(4000, 100000), func(c *vk.Case) {
+	r.Phase("spellings", r.N(4000, 1000000), func(c *vk.Case) {
 		rng := c.Rng
 		t := genInstant(rng)
 		if c.Idx%2 == 0 {
@@ -322,7 +322,7 @@ func runC16(r *vk.Run) {
 		c.Sample("malformed", map[string]any{"times": badTimes, "durations": badDur, "steps": badStep})
 	})
 	// end to end: flags of the built plugin -> what the fake daemon is asked for (no wall clock: --end always explicit and in the past)
-	r.Phase("e2e", r.N(30, 400), func(c *vk.Case) {
+	r.Phase("e2e", r.N(30, 2500), func(c *vk.Case) {
 		rng := c.Rng
 		inv := []CSpec{{ID: "id0", Name: "/c0", Image: "img", State: "running"}}
 		for j := 0; j < 8; j++ {
